@@ -4,6 +4,7 @@ mod engine;
 mod gen;
 mod graphcase;
 mod oracle;
+mod xmlgen;
 mod model;
 mod props;
 
@@ -64,8 +65,10 @@ fn main() {
         "C10" => engine::run(&props::c10::C10, &opts),
         "C11" => engine::run(&props::c11::C11, &opts),
         "C12" => engine::run(&props::c12::C12, &opts),
+        "C14" => engine::run(&props::c14::C14 { root: opts.root.clone() }, &opts),
         "C15" => engine::run(&props::c15::C15, &opts),
         "C16" => engine::run(&props::c16::C16, &opts),
+        "C19" => engine::run(&props::c19::C19, &opts),
         _ => {
             eprintln!("unknown property {}", id);
             2
